@@ -387,7 +387,21 @@ class CFG:
         self.N.add(head)
         r = Rule(w, head, body)
         self.rules.append(r)
+        self._invalidate()
         return r
+
+    # number of plain instance attributes set by __init__ (anything beyond them
+    # in the instance dict is a cached result)
+    _N_FIELDS = 6
+
+    def _invalidate(self):
+        "Forget results cached on this object; they depend on the set of rules."
+        d = self.__dict__
+        if len(d) > self._N_FIELDS:
+            for k in [k for k in d if isinstance(getattr(type(self), k, None), cached_property)]:
+                del d[k]
+        if self._trim_cache[0] is not None or self._trim_cache[1] is not None:
+            self._trim_cache = [None, None]
 
     def renumber(self):
         """
